@@ -3,18 +3,19 @@
 (* Trace validation of executions recorded from the real code under the    *)
 (* deterministic scheduler (harness/sched.py).  One case = one execution:  *)
 (*  [threads |-> n, reqs |-> k, own |-> <<<<t, r>>, ...>>,                  *)
-(*   ev |-> << [t, k |-> "load"|"store"|"acq"|"rel"|"send", v] >>]          *)
+(*   fail |-> <<<<t, r>>, ...>>,                                            *)
+(*   ev |-> << [t, k |-> "load"|"store"|"acq"|"rel"|"send"|"fail", v] >>]   *)
 (* A-verdict (property C16): the ids that reached the opener.              *)
 (* I-verdict (conformance): the event sequence is a behaviour of ReqId.    *)
 (***************************************************************************)
 EXTENDS Naturals, Integers, Sequences, FiniteSets, TLC, Json, IOUtils
 Cases == ndJsonDeserialize(IOEnv.CASES)
 CONSTANTS NT, Reqs                  \* all cases of one judge run use NT threads x Reqs requests
-VARIABLES tid, l, counter, holder, pc, nxt, tmp, done, sent, own, verdict
-vars == <<tid, l, counter, holder, pc, nxt, tmp, done, sent, own, verdict>>
+VARIABLES tid, l, counter, holder, pc, nxt, tmp, done, sent, own, failing, lost, verdict
+vars == <<tid, l, counter, holder, pc, nxt, tmp, done, sent, own, failing, lost, verdict>>
 C == Cases[tid]
 Threads == 1 .. NT
-R == INSTANCE ReqId WITH OwnChoices <- {{}}
+R == INSTANCE ReqId WITH OwnChoices <- {{}}, FailChoices <- {{}}
 OwnId == own
 
 Init == /\ tid \in 1 .. Len(Cases) /\ l = 1 /\ verdict = "run"
@@ -23,6 +24,8 @@ Init == /\ tid \in 1 .. Len(Cases) /\ l = 1 /\ verdict = "run"
         /\ nxt = [t \in Threads |-> 0] /\ tmp = [t \in Threads |-> 0]
         /\ done = [t \in Threads |-> 0] /\ sent = <<>>
         /\ own = { <<Cases[tid].own[i][1], Cases[tid].own[i][2]>> : i \in 1 .. Len(Cases[tid].own) }
+        /\ failing = { <<Cases[tid].fail[i][1], Cases[tid].fail[i][2]>> : i \in 1 .. Len(Cases[tid].fail) }
+        /\ lost = {}
 
 E == C.ev[l]
 IsEvent(k) == verdict = "run" /\ l <= Len(C.ev) /\ E.k = k /\ l' = l + 1 /\ UNCHANGED <<tid, verdict>>
@@ -31,20 +34,23 @@ TLoad  == IsEvent("load") /\ E.v = counter /\ (R!Check(E.t) \/ R!ReadForId(E.t) 
 TStore == IsEvent("store") /\ R!WriteInc(E.t) /\ counter' = E.v
 TAcq   == IsEvent("acq") /\ R!Acquire(E.t)
 TRel   == IsEvent("rel") /\ R!Release(E.t)
+TFail  == IsEvent("fail") /\ R!Fail(E.t)
 TSend  == IsEvent("send") /\ R!Send(E.t) /\ (~(<<E.t, done[E.t] + 1>> \in OwnId) => E.v = nxt[E.t])
 
 (* the A-spec on what reached the opener, evaluated once on the whole trace *)
 Sends == SelectSeq(C.ev, LAMBDA e : e.k = "send")
 Gen == SelectSeq(Sends, LAMBDA e : e.v >= 0)              \* v = -1: caller supplied id sent unchanged, -2: altered
+NFail == Len(SelectSeq(C.ev, LAMBDA e : e.k = "fail"))  \* requests that failed after their number was handed out
 AOK == /\ \A i, j \in 1 .. Len(Gen) : i # j => Gen[i].v # Gen[j].v
-       /\ { Gen[i].v : i \in 1 .. Len(Gen) } = 0 .. (Len(Gen) - 1)
+       /\ { Gen[i].v : i \in 1 .. Len(Gen) } \subseteq 0 .. (Len(Gen) + NFail - 1)   \* no gaps but the lost numbers
        /\ \A i \in 1 .. Len(Sends) : Sends[i].v # -2
-       /\ Len(Gen) = NT * Reqs - Len(C.own)
+       /\ NFail = Len(C.fail)
+       /\ Len(Gen) = NT * Reqs - Len(C.own) - NFail
 
-Finish == /\ verdict = "run" /\ (l > Len(C.ev) \/ ~ENABLED (TLoad \/ TStore \/ TAcq \/ TRel \/ TSend))
+Finish == /\ verdict = "run" /\ (l > Len(C.ev) \/ ~ENABLED (TLoad \/ TStore \/ TAcq \/ TRel \/ TSend \/ TFail))
           /\ verdict' = IF ~AOK THEN "REJECT-IDS" ELSE IF l <= Len(C.ev) THEN "DRIFT" ELSE "ACCEPT"
           /\ PrintT(<<verdict', tid, l>>)
-          /\ UNCHANGED <<tid, l, counter, holder, pc, nxt, tmp, done, sent, own>>
-Next == TLoad \/ TStore \/ TAcq \/ TRel \/ TSend \/ Finish
+          /\ UNCHANGED <<tid, l, counter, holder, pc, nxt, tmp, done, sent, own, failing, lost>>
+Next == TLoad \/ TStore \/ TAcq \/ TRel \/ TSend \/ TFail \/ Finish
 Spec == Init /\ [][Next]_vars
 =============================================================================
